@@ -58,6 +58,7 @@ type ClaimV struct {
 	Term            bool // condition InstanceTerminating=True
 	Unmanaged       bool // nodeClassRef of a kind the cloud provider does not support: the informer must ignore it
 	Taints, Startup []string
+	AllocLess       bool // status.allocatable below status.capacity
 }
 
 type PodV struct {
@@ -77,6 +78,7 @@ type PodV struct {
 	Init       bool   // an init container with larger requests
 	Overhead   bool
 	Ephemeral  bool // a generic ephemeral volume (PVC <pod>-eph)
+	PrefAnti   bool // only a preferred anti-affinity term (not tracked by the cache)
 	// derived by the real helper functions when the pod is written to the API
 	Cost                           int64    // EvictionCost * 2^27
 	PortsRes                       []string // scheduling.GetHostPorts
@@ -112,12 +114,47 @@ type world struct {
 	nodes    map[string]*NodeV
 	claims   map[string]*ClaimV
 	pods     map[string]*PodV
+	fault    string
+	pvLate   bool
 }
 
 func newWorld() *world {
 	w := &world{ctx: kit.Context(), clk: clock.NewFakeClock(time.Unix(1_700_000_000, 0)), cp: fake.NewCloudProvider(),
 		nodes: map[string]*NodeV{}, claims: map[string]*ClaimV{}, pods: map[string]*PodV{}}
-	w.c = kit.NewClient(interceptor.Funcs{})
+	// fault plan: one kind of read fails while w.fault names it
+	w.c = kit.NewClient(interceptor.Funcs{
+		List: func(ctx context.Context, c client.WithWatch, list client.ObjectList, opts ...client.ListOption) error {
+			if _, ok := list.(*corev1.PodList); ok && w.fault == "list-pods" {
+				return apierrors.NewInternalError(fmt.Errorf("injected"))
+			}
+			return c.List(ctx, list, opts...)
+		},
+		Get: func(ctx context.Context, c client.WithWatch, key client.ObjectKey, obj client.Object, opts ...client.GetOption) error {
+			switch obj.(type) {
+			case *corev1.PersistentVolume:
+				if w.fault == "get-pv" {
+					return apierrors.NewInternalError(fmt.Errorf("injected"))
+				}
+			case *corev1.Node:
+				if w.fault == "get-node" {
+					return apierrors.NewInternalError(fmt.Errorf("injected"))
+				}
+			case *corev1.PersistentVolumeClaim:
+				if w.fault == "get-pvc" {
+					return apierrors.NewInternalError(fmt.Errorf("injected"))
+				}
+			case *storagev1.StorageClass:
+				if w.fault == "get-sc" {
+					return apierrors.NewInternalError(fmt.Errorf("injected"))
+				}
+			case *corev1.Pod:
+				if w.fault == "get-pod" {
+					return apierrors.NewInternalError(fmt.Errorf("injected"))
+				}
+			}
+			return c.Get(ctx, key, obj, opts...)
+		},
+	})
 	// storage fixtures: two classes / drivers, three claims, one bound static volume
 	sc1 := &storagev1.StorageClass{ObjectMeta: metav1.ObjectMeta{Name: "sc1"}, Provisioner: "drv1"}
 	sc2 := &storagev1.StorageClass{ObjectMeta: metav1.ObjectMeta{Name: "sc2"}, Provisioner: "drv2"}
@@ -139,7 +176,8 @@ func newWorld() *world {
 	pvEBS := &corev1.PersistentVolume{ObjectMeta: metav1.ObjectMeta{Name: "pv-ebs"}, Spec: corev1.PersistentVolumeSpec{
 		PersistentVolumeSource: corev1.PersistentVolumeSource{AWSElasticBlockStore: &corev1.AWSElasticBlockStoreVolumeSource{VolumeID: "v"}}}}
 	extra := []client.Object{scIn, pvHost, pvEBS, mk("pvc-f", "sc1", ""), mk("pvc-g", "sc1", ""), mk("pvc-h", "sc-intree", ""),
-		mk("pvc-i", "sc-missing", ""), mk("pvc-j", "", "pv-host"), mk("pvc-k", "", "pv-ebs")}
+		mk("pvc-i", "sc-missing", ""), mk("pvc-j", "", "pv-host"), mk("pvc-k", "", "pv-ebs"),
+		mk("pvc-z", "", "pv-late")} // pv-late does not exist until a CreatePV op
 	for i := 0; i < 6; i++ {
 		extra = append(extra, mk(fmt.Sprintf("p%d-eph", i), "sc2", ""))
 	}
@@ -237,6 +275,9 @@ func (w *world) buildClaim(v *ClaimV) *v1.NodeClaim {
 	nc.Status.ProviderID = v.PID
 	nc.Status.Capacity = rl(v.CPU, v.Mem)
 	nc.Status.Allocatable = rl(v.CPU, v.Mem)
+	if v.AllocLess && v.CPU > 50 {
+		nc.Status.Allocatable = rl(v.CPU-50, v.Mem)
+	}
 	return nc
 }
 
@@ -286,6 +327,10 @@ func (w *world) buildPod(v *PodV) *corev1.Pod {
 			pv.VolumeSource = corev1.VolumeSource{PersistentVolumeClaim: &corev1.PersistentVolumeClaimVolumeSource{ClaimName: vol}}
 		}
 		p.Spec.Volumes = append(p.Spec.Volumes, pv)
+	}
+	if v.PrefAnti {
+		p.Spec.Affinity = &corev1.Affinity{PodAntiAffinity: &corev1.PodAntiAffinity{PreferredDuringSchedulingIgnoredDuringExecution: []corev1.WeightedPodAffinityTerm{{Weight: 1,
+			PodAffinityTerm: corev1.PodAffinityTerm{TopologyKey: corev1.LabelHostname, LabelSelector: &metav1.LabelSelector{MatchLabels: map[string]string{"app": "x"}}}}}}}
 	}
 	if v.AntiAff {
 		p.Spec.Affinity = &corev1.Affinity{PodAntiAffinity: &corev1.PodAntiAffinity{RequiredDuringSchedulingIgnoredDuringExecution: []corev1.PodAffinityTerm{{
@@ -395,9 +440,11 @@ func (w *world) setPod(v *PodV) {
 	for _, hp := range scheduling.GetHostPorts(p) {
 		v.PortsRes = append(v.PortsRes, fmt.Sprintf("%s/%d/%s", hp.IP, hp.Port, hp.Protocol))
 	}
-	vols, err := scheduling.GetVolumes(w.ctx, w.c, p)
-	must(err)
-	v.VolsRes = vols.VerifC11Flat()
+	if vols, err := scheduling.GetVolumes(w.ctx, w.c, p); err != nil {
+		v.VolsRes = []string{"<unresolvable>"} // a claim bound to a volume that does not exist (profile dangling-pv only)
+	} else {
+		v.VolsRes = vols.VerifC11Flat()
+	}
 	rq, lm := resources.RequestsForPods(p), resources.LimitsForPods(p)
 	v.ReqCPU, v.ReqMem = milli(rq[corev1.ResourceCPU]), mi(rq[corev1.ResourceMemory])
 	v.LimCPU, v.LimMem = milli(lm[corev1.ResourceCPU]), mi(lm[corev1.ResourceMemory])
@@ -427,6 +474,27 @@ func (w *world) apply(o Op) {
 		_, _ = w.claimCtl.Reconcile(w.ctx, reconcile.Request{NamespacedName: types.NamespacedName{Name: o.Name}})
 	case "DeliverPod":
 		_, _ = w.podCtl.Reconcile(w.ctx, reconcile.Request{NamespacedName: types.NamespacedName{Name: o.Name, Namespace: ns}})
+	case "FaultDeliverNode":
+		// a reconcile whose read fails (pod list / node get): must leave the cache as it is
+		w.fault = o.Tag
+		_, _ = w.nodeCtl.Reconcile(w.ctx, reconcile.Request{NamespacedName: types.NamespacedName{Name: o.Name}})
+		w.fault = ""
+	case "FaultDeliverPod":
+		w.fault = o.Tag
+		_, _ = w.podCtl.Reconcile(w.ctx, reconcile.Request{NamespacedName: types.NamespacedName{Name: o.Name, Namespace: ns}})
+		w.fault = ""
+	case "CreatePV":
+		pv := &corev1.PersistentVolume{ObjectMeta: metav1.ObjectMeta{Name: "pv-late"}, Spec: corev1.PersistentVolumeSpec{
+			PersistentVolumeSource: corev1.PersistentVolumeSource{CSI: &corev1.CSIPersistentVolumeSource{Driver: "drv1", VolumeHandle: "late"}}}}
+		if err := w.c.Create(w.ctx, pv); err != nil && !apierrors.IsAlreadyExists(err) {
+			panic(err)
+		}
+		w.pvLate = true
+	case "DeletePV":
+		w.hardDelete(&corev1.PersistentVolume{ObjectMeta: metav1.ObjectMeta{Name: "pv-late"}})
+		w.pvLate = false
+	case "Tick":
+		w.clk.Step(time.Hour) // far beyond the nomination window
 	case "Nominate":
 		w.cluster.NominateNodeForPod(w.ctx, o.Name)
 	case "SetForeignClaim":
@@ -460,6 +528,12 @@ func (w *world) fresh(marked []string) (*state.Cluster, state.VerifC11Dump) {
 		w.apply(Op{Kind: "DeliverPod", Name: n})
 	}
 	cl.MarkForDeletion(marked...)
+	// nomination, like the marks, is in-memory state: taken over from the cache under comparison
+	for id, sn := range saved.VerifC11Dump().Nodes {
+		if sn.Nominated {
+			cl.NominateNodeForPod(w.ctx, id)
+		}
+	}
 	return cl, cl.VerifC11Dump()
 }
 
